@@ -110,13 +110,43 @@ func runQuorum(r *ev.Run, env *hsenv.Env, base polyenv.Dump, chain uint64, world
 	}
 	reqPrefix := polyenv.StorageKey(utils.ConcatKey(utils.CrossChainManagerContractAddress, []byte(scom.REQUEST), utils.GetUint64Bytes(dstChain)))
 	evs := extraVariants(m1, m2)
+	for _, sh := range shapes { // hash-shape messages ride along as extra variants, proven at their own slot
+		evs = append(evs, extraV{name: "exact/" + sh.name, b: serMsg(sh.m)})
+	}
+	shapeSlot := map[string]ecommon.Hash{}
+	for _, sh := range shapes {
+		shapeSlot["exact/"+sh.name] = sh.slot
+	}
 	var nonce uint32 = 990000
 	n := 0
 	dirty := false
 	for _, qh := range hdrs {
 		for _, pw := range []int{qh.world, 2} { // proof taken from the header's own world / from another block's world
-			for _, pv := range proofVariants(worlds[pw], slots[0], slots[1], slots[2], slots[3]) {
+			pvsBase := proofVariants(worlds[pw], slots[0], slots[1], slots[2], slots[3])
+			type pe struct {
+				pv named
+				e  extraV
+			}
+			var cases []pe
+			for _, pv := range pvsBase {
 				for _, e := range evs {
+					if _, isShape := shapeSlot[e.name]; !isShape {
+						cases = append(cases, pe{pv, e})
+					}
+				}
+			}
+			for _, e := range evs {
+				if sl, isShape := shapeSlot[e.name]; isShape {
+					pvs := proofVariants(worlds[pw], sl, slots[1], slots[2], slots[3])
+					for _, pv := range pvs {
+						cases = append(cases, pe{pv, e})
+					}
+					cases = append(cases, pe{pvs[0], evs[0]})
+				}
+			}
+			for _, c := range cases {
+				pv, e := c.pv, c.e
+				{
 					if dirty {
 						sim.Load(rbase)
 						dirty = false
@@ -142,10 +172,17 @@ func runQuorum(r *ev.Run, env *hsenv.Env, base polyenv.Dump, chain uint64, world
 					case res.OK && want != "":
 						r.Violation(tag+"/accepted-although/"+want, detail)
 					case !res.OK && want == "":
-						r.Violation(tag+"/rejected-valid-deposit/"+pv.name, detail)
+						k := tag + "/rejected-valid-deposit/" + pv.name
+						if strings.HasPrefix(e.name, "exact/") {
+							k += "/" + e.name[len("exact/"):]
+						}
+						r.Violation(k, detail)
 					case res.OK:
 						r.Class(tag + ":accept")
 						r.Class(tag + ":accept:" + pv.name)
+						if strings.HasPrefix(e.name, "exact/") {
+							r.Class(tag + ":accept-shape:" + e.name[len("exact/"):])
+						}
 						r.Case(tag + "/accept/" + qh.name + "/" + pv.name + "/" + e.name)
 					default:
 						r.Class(tag + ":reject")
